@@ -2,7 +2,7 @@
 from vf.driver import contract_units
 
 LEVEL = "proof"
-MODULES = ["contracts.c_access", "contracts.c_engine", "contracts.c_request", "contracts.c_attributes",
+MODULES = ["contracts.c_secretfactory", "contracts.c_access", "contracts.c_engine", "contracts.c_request", "contracts.c_attributes",
            "contracts.c_locate", "contracts.c_crypto", "contracts.c_factory", "contracts.c_template"]
 EXPLANATION = ("For every request handler under contract, every path of the real code under the payload "
                "invariant (what the decoder accepts), every stored class/state and every protocol version "
